@@ -24,12 +24,16 @@ Theorem generated_decisions :
   (* forests: a new root for every element not yet visited; the face forest forwards its exclusion set, the edge
      and cell forests build plain trees (no exclusion, no avoid_boundary) *)
   ((forall b, forest_new_root b = negb b) /\ forest_forwards_exclusions KFace = true /\
-   (forall k p, forest_cfg k p = mkCfg k false false p)).
+   (forall k p, forest_cfg k p = mkCfg k false false p)) /\
+  (* a starting element outside 0..n-1 is refused by the three constructors; compute() starts from empty tables *)
+  ((forall k r n, root_ok k r n = (Z.leb 0 r && Z.ltb r n)) /\
+   (forall k, tree_resets k = true) /\ kr_resets = true /\ (forall k, forest_resets k = true)).
 Proof.
-  split; [exact ops_spec|]. split; [split; reflexivity|]. split.
+  split; [exact ops_spec|]. split; [split; reflexivity|]. split; [|split].
   - split; [reflexivity|]. split; [exact kr_take_spec|]. split; [exact kr_weight_spec|].
     split; [exact kr_all_edges_spec|]. split; [exact kr_keep_spec|exact kr_child_keep_spec].
   - split; [intros []; reflexivity|]. split; [reflexivity|]. intros [] p; reflexivity.
+  - split; [intros [] r n; reflexivity|]. split; [intros []; reflexivity|]. split; [reflexivity|intros []; reflexivity].
 Qed.
 
 (* ------------------------------------------------------------ acyclicity of the parent table, explicitly *)
@@ -211,3 +215,186 @@ Lemma forest_iff_bridges (ed : nat -> nat * nat) T :
   idforest ed T <->
   (forall l1 e l2, T = l1 ++ e :: l2 -> ~ econn (eds ed (l1 ++ l2)) (fst (ed e)) (snd (ed e))).
 Proof. split; [apply idforest_bridge | apply bridges_idforest]. Qed.
+
+(* ------------------------------------------------------------ roots as Python integers; compute() called again *)
+Lemma root_ok_spec k r n : root_ok k r n = (Z.leb 0 r && Z.ltb r n).
+Proof. destruct k; reflexivity. Qed.
+
+(* all roots: exactly the integers 0..n-1 are accepted (a negative index is refused, not wrapped around) *)
+Lemma bfs_z_spec c g r :
+  ((0 <= r < Z.of_nat (length g))%Z -> bfs_z c g r = bfs c g (Z.to_nat r) /\ exists t, bfs_z c g r = Some t) /\
+  (~ (0 <= r < Z.of_nat (length g))%Z -> bfs_z c g r = None).
+Proof.
+  unfold bfs_z. rewrite root_ok_spec. split; intros H.
+  - destruct (Z.leb_spec 0 r), (Z.ltb_spec r (Z.of_nat (length g))); try lia. simpl. split; auto.
+    apply bfs_some. lia.
+  - destruct (Z.leb_spec 0 r), (Z.ltb_spec r (Z.of_nat (length g))); simpl; auto. lia.
+Qed.
+
+Lemma again_const {A} k (t x : A) : again k (fun _ => t) x = match k with 0 => x | S _ => t end.
+Proof. revert x. induction k as [|k IH]; intros x; simpl; auto. rewrite IH. destruct k; reflexivity. Qed.
+
+(* calling compute() again leaves the tables of one computation *)
+Lemma bfs_calls_idem c g r calls : bfs_calls c g r calls = bfs_z c g r.
+Proof.
+  unfold bfs_calls. destruct (bfs_z c g r) as [t|]; auto.
+  replace (tree_resets (c_kind c)) with true by (destruct (c_kind c); reflexivity).
+  simpl. rewrite again_const. now destruct (calls - 1).
+Qed.
+
+Lemma forest_calls_idem k p g calls : forest_calls k p g calls = forest k p g.
+Proof.
+  unfold forest_calls. replace (forest_resets k) with true by (destruct k; reflexivity).
+  rewrite again_const. now destruct (calls - 1).
+Qed.
+
+Lemma kruskal_calls_idem i r calls : kruskal_calls i r calls = kruskal_z i r.
+Proof.
+  unfold kruskal_calls. destruct (kruskal_z i r) as [t|]; auto.
+  change kr_resets with true. simpl. rewrite again_const. now destruct (calls - 1).
+Qed.
+
+Lemma recompute_idem :
+  (forall c g r calls, bfs_calls c g r calls = bfs_z c g r) /\
+  (forall k p g calls, forest_calls k p g calls = forest k p g) /\
+  (forall i r calls, kruskal_calls i r calls = kruskal_z i r).
+Proof. split; [exact bfs_calls_idem|]. split; [exact forest_calls_idem|exact kruskal_calls_idem]. Qed.
+
+Lemma kruskal_none i : ki_n i <= ki_root i -> kruskal i = None.
+Proof. intros H. unfold kruskal. destruct (Nat.ltb_spec (ki_root i) (ki_n i)); [lia|reflexivity]. Qed.
+
+Lemma kruskal_defined i :
+  (ki_root i < ki_n i -> exists kt, kruskal i = Some kt) /\ (ki_n i <= ki_root i -> kruskal i = None).
+Proof. split; [apply kruskal_some | apply kruskal_none]. Qed.
+
+Lemma kruskal_z_spec i r :
+  ((0 <= r < Z.of_nat (ki_n i))%Z -> exists kt, kruskal_z i r = Some kt) /\
+  (~ (0 <= r < Z.of_nat (ki_n i))%Z -> kruskal_z i r = None).
+Proof.
+  unfold kruskal_z. change (edge_root_ok r (Z.of_nat (ki_n i))) with (root_ok KEdge r (Z.of_nat (ki_n i))).
+  rewrite root_ok_spec. split; intros H.
+  - destruct (Z.leb_spec 0 r), (Z.ltb_spec r (Z.of_nat (ki_n i))); try lia. simpl. apply kruskal_some. simpl. lia.
+  - destruct (Z.leb_spec 0 r), (Z.ltb_spec r (Z.of_nat (ki_n i))); simpl; auto. lia.
+Qed.
+
+(* ------------------------------------------------------------ the symmetry hypothesis is checked on every observed mesh *)
+Lemma symb_sound c g : symb (length g) (adm_nbrs c g) = true -> sym_nb (adm_nbrs c g).
+Proof.
+  unfold symb. rewrite forallb_forall. intros H u v Hv.
+  destruct (Nat.lt_ge_cases u (length g)) as [Hu|Hu].
+  - specialize (H u (proj2 (in_seq0 _ _) Hu)). rewrite forallb_forall in H. specialize (H v Hv).
+    apply andb_true_iff in H as [_ H]. now apply memn_In.
+  - unfold adm_nbrs, getl in Hv. rewrite nth_overflow in Hv by lia. contradiction.
+Qed.
+
+(* ------------------------------------------------------------ traverse on the oriented Kruskal tree, also with the
+   children lists in another order (Python set iteration order) *)
+Lemma same_set_spec a b : same_set a b = true -> NoDup a /\ NoDup b /\ forall x, In x a <-> In x b.
+Proof.
+  unfold same_set. intros H. apply andb_true_iff in H as [H H4]. apply andb_true_iff in H as [H H3].
+  apply andb_true_iff in H as [H1 H2].
+  apply Nat.eqb_eq in H1. apply nodupb_NoDup in H2, H3. rewrite forallb_forall in H4.
+  assert (Hincl : incl a b) by (intros x Hx; apply memn_In; auto).
+  assert (Hb : incl b a) by (apply NoDup_length_incl; auto; lia).
+  repeat split; auto.
+Qed.
+
+Lemma tree_tables_perm n root inT par ch ch' dep :
+  tree_tables n root inT par ch dep -> length ch' = n ->
+  (forall v, v < n -> same_set (getl ch v) (getl ch' v) = true) ->
+  tree_tables n root inT par ch' dep.
+Proof.
+  intros T L H. constructor; try apply T; auto.
+  - intros p x Hp. destruct (same_set_spec _ _ (H p (tt_range _ _ _ _ _ _ T p Hp))) as (_ & _ & E). rewrite <- E.
+    now apply (tt_ch _ _ _ _ _ _ T).
+  - intros p Hp. now destruct (same_set_spec _ _ (H p (tt_range _ _ _ _ _ _ T p Hp))) as (_ & N & _).
+Qed.
+
+Lemma kruskal_traverse i kt ch : kruskal_spec i kt -> length ch = ki_n i ->
+  (forall v, v < ki_n i -> same_set (getl (kt_children kt) v) (getl ch v) = true) ->
+  forall order_is_BFS, exists out,
+    traverse order_is_BFS (ki_root i) ch = (out, true) /\
+    traversal_ok (fun v => econn (eds (edge_at (ki_edges i)) (kt_ids kt)) (ki_root i) v) (kt_parent kt) out.
+Proof.
+  intros K L H order. destruct (ks_orient _ _ K) as (dep & TT & _).
+  apply (traverse_correct _ _ _ _ _ _ (tree_tables_perm _ _ _ _ _ _ _ TT L H)).
+Qed.
+
+(* ------------------------------------------------------------ forest.traverse: every element exactly once *)
+Lemma NoDup_flat_map {A} (G : A -> list nat) (p : A -> nat -> bool) l :
+  (forall x, In x l -> NoDup (G x)) ->
+  (forall x v, In x l -> (In v (G x) <-> p x v = true)) ->
+  (forall v, length (filter (fun x => p x v) l) <= 1) ->
+  NoDup (flat_map G l).
+Proof.
+  induction l as [|x l IH]; intros H1 H2 H3; simpl; [constructor|].
+  apply NoDup_app_iff. repeat split.
+  - apply H1. now left.
+  - apply IH.
+    + intros y Hy. apply H1. now right.
+    + intros y v Hy. apply H2. now right.
+    + intros v. specialize (H3 v). simpl in H3. destruct (p x v); simpl in H3; lia.
+  - intros v Hv Hin. apply in_flat_map in Hin as [y [Hy Hvy]].
+    apply (H2 x v (or_introl eq_refl)) in Hv. apply (H2 y v (or_intror Hy)) in Hvy.
+    specialize (H3 v). simpl in H3. rewrite Hv in H3. simpl in H3.
+    assert (0 < length (filter (fun x0 => p x0 v) l)).
+    { assert (In y (filter (fun x0 => p x0 v) l)) by (apply filter_In; auto).
+      destruct (filter (fun x0 => p x0 v) l); [contradiction|simpl; lia]. }
+    lia.
+Qed.
+
+Theorem forest_traverse_correct k polyline g order_is_BFS :
+  wf_raw g ->
+  let c := forest_cfg k polyline in
+  let g' := forest_graph k g in
+  sym_nb (adm_nbrs c g') ->
+  let out := forest_traverse order_is_BFS (forest k polyline g) in
+  NoDup (map fst out) /\ (forall v, In v (map fst out) <-> v < length g').
+Proof.
+  intros W c g' S out.
+  destruct (forest_correct k polyline g W S) as (Hspec & Hcnt & _ & _). fold c g' in Hspec, Hcnt.
+  set (f := forest k polyline g) in *.
+  set (G := fun t => map fst (fst (traverse order_is_BFS (t_root t) (t_children t)))).
+  assert (Eout : map fst out = flat_map G f).
+  { unfold out, forest_traverse. clear. induction f as [|t f IH]; simpl; auto. now rewrite map_app, IH. }
+  assert (HG : forall t, In t f -> NoDup (G t) /\ forall v, In v (G t) <-> getb (t_seen t) v = true).
+  { intros t Ht. pose proof (Hspec t Ht) as B.
+    destruct (traverse_correct _ _ _ _ _ _ (bfs_tree_tables _ _ _ _ B) order_is_BFS) as (o & Eo & N & A & _).
+    unfold G. rewrite Eo. simpl. split; auto. }
+  assert (Hle : forall v, count_seen v f <= 1).
+  { intros v. destruct (Nat.lt_ge_cases v (length g')) as [Hv|Hv]; [rewrite Hcnt; auto|].
+    unfold count_seen. rewrite filter_none; [simpl; lia|]. intros t Ht.
+    destruct (getb (t_seen t) v) eqn:E; auto. apply getb_lt in E.
+    destruct (bs_lens _ _ _ _ (Hspec t Ht)) as (_ & _ & L3). lia. }
+  rewrite Eout. split.
+  - apply (NoDup_flat_map G (fun t v => getb (t_seen t) v) f).
+    + intros t Ht. now destruct (HG t Ht).
+    + intros t v Ht. now destruct (HG t Ht) as [_ A].
+    + exact Hle.
+  - intros v. rewrite in_flat_map. split.
+    + intros [t [Ht Hv]]. apply (HG t Ht) in Hv. apply getb_lt in Hv.
+      destruct (bs_lens _ _ _ _ (Hspec t Ht)) as (_ & _ & L3). lia.
+    + intros Hv. specialize (Hcnt v Hv). unfold count_seen in Hcnt.
+      destruct (filter (fun t => getb (t_seen t) v) f) as [|t r] eqn:E; [discriminate|].
+      assert (Hin : In t (filter (fun t => getb (t_seen t) v) f)) by (rewrite E; simpl; auto).
+      apply filter_In in Hin as [Ht Hs]. exists t. split; auto. now apply (HG t Ht).
+Qed.
+
+(* ------------------------------------------------------------ more non-vacuity *)
+(* three faces: 0 and 1 share an edge (slot excluded in the second variant), 2 is apart *)
+Definition ex_faces (forb : bool) : raw :=
+  [ [mkArc (Some 1) forb false; mkArc None false false; mkArc None false false];
+    [mkArc None false false; mkArc (Some 0) forb false; mkArc None false false];
+    [mkArc None false false; mkArc None false false; mkArc None false false] ].
+
+Example ex_face_forest :
+  forest_roots (forest KFace false (ex_faces false)) = [0; 2] /\
+  forest_roots (forest KFace false (ex_faces true)) = [0; 1; 2] /\
+  symb 3 (adm_nbrs (forest_cfg KFace false) (forest_graph KFace (ex_faces true))) = true /\
+  map fst (forest_traverse false (forest KFace false (ex_faces false))) = [0; 1; 2].
+Proof. repeat split; vm_compute; reflexivity. Qed.
+
+Example ex_roots :
+  bfs_z ex_c ex_g (-1) = None /\ bfs_z ex_c ex_g 6 = None /\ bfs_z ex_c ex_g 5 <> None /\
+  kruskal_z ex_ki (-4) = None /\ bfs_calls ex_c ex_g 0 3 = bfs ex_c ex_g 0.
+Proof. repeat split; try (vm_compute; reflexivity). vm_compute. discriminate. Qed.
